@@ -13,7 +13,9 @@ import numpy as np
 import common
 from props.c13 import PREFIX, cdiv, rel, spec_path, walk_samples
 
-RATES = [(10 ** 8, 7), (10 ** 9, 7), (10 ** 6, 3), (200, 3), (25 * 10 ** 6, 3), (1, 1), (100, 1)]
+RATES = [(10 ** 8, 7), (10 ** 9, 7), (10 ** 6, 3), (200, 3), (25 * 10 ** 6, 3), (1, 1), (100, 1),
+         # present-day indices with k*d >= 2^64 (a 64-bit evaluation of k*d would wrap)
+         (10 ** 11, 1001), (20000000123, 1000), (12345678901, 10)]
 FCS = [1, 3, 60, 3600]
 SCS = [3600, 86400]
 VARIANTS = {"fixed": (0, 0, 0), "arith=LongDouble": (1, 0, 0), "gsort=StrSort": (0, 1, 0),
@@ -154,6 +156,8 @@ def gen_channel(rng, n, d, fc, sc, kind):
         special = [5, 9, 10, 11, 99, 100, 101, 999, 1000, 1001, 9999, 10000]
     elif kind == "pow10":
         m = next(m for m in range(9, 30) if 10 ** m * d // n >= 2 * 10 ** 9)
+        if 10 ** m >= 2 ** 63:
+            m = next(m for m in range(9, 30) if 10 ** m * d // n >= 10 ** 8)
         P = 10 ** m
         j0 = max(0, (P * d // n) // fc - 1)
         special = [P - 2, P - 1, P, P + 1, P + 9]
@@ -226,7 +230,7 @@ def gen_queries(rng, n, d, fc, spec, nq):
     if keys:
         pts.update([keys[0] - 2, keys[-1] + 2, keys[-1] + 5 * fc * n // d + 3])
     else:
-        pts.update([0, 5, 1500000000 * n // d])
+        pts.update([0, 5, 40 * fc * n // d])
     pts = sorted(p for p in pts if p >= 0)
     qs = [(0, 0, 0, None), (3, 0, 0, None), (4, 0, 0, None), (3, 0, 0, "tag"), (3, 0, 0, ["tag", "x"])]
     for _ in range(nq):
@@ -237,16 +241,25 @@ def gen_queries(rng, n, d, fc, spec, nq):
             continue
         later = [p for p in pts if p >= a]
         b = rng.choice([a, rng.choice(later), rng.choice(later), rng.choice(later[:4]), rng.choice(pts)])
-        qs.append((kind, a, b, rng.choice([None, None, None, "tag", ["tag", "x"], ["nest", "tag"]])))
+        qs.append((kind, a, b, rng.choice([None, None, None, "tag", ["tag", "x"], ["nest", "tag"], ["tag", "opt"]])))
     if keys:
         qs.append((1, pts[0], pts[-1], None))
         qs.append((2, pts[0], pts[-1], None))
     return qs
 
 
-def spec_answer(spec, q):
-    kind, a, b, _ = q
+def spec_answer(spec, q, lacks_opt=None, filekey=None):
+    """lacks_opt: indices whose sample has no field 'opt'; filekey: index -> file (for the forward-fill pass,
+    which converts every sample of the fill file at or before start before picking the last)"""
+    kind, a, b, cols = q
     keys = sorted(spec)
+    if lacks_opt is not None and isinstance(cols, list) and "opt" in cols and kind in (1, 2) and a <= b and keys:
+        loaded = [k for k in keys if a <= k <= b] if kind == 1 else [k for k in keys if a < k <= b]
+        before = [k for k in keys if k <= a]
+        if kind == 2 and before:
+            loaded += [k for k in before if filekey(k) == filekey(before[-1])]
+        if any(k in lacks_opt for k in loaded):
+            return [3, 0]
     if kind == 0:
         return [0, 1, keys[0], keys[-1]] if keys else [2, 0]
     if kind in (3, 4):
@@ -283,6 +296,8 @@ def impl_answer(rd, q, expv, problems):
             r = rd.read(a, columns=cols)
         else:
             r = rd.read(a, columns=cols, method="ffill")
+    except KeyError:
+        return [3, 0]
     except ValueError:
         return [1, 0]
     except IOError:
@@ -329,7 +344,8 @@ def classify(q, exp, got, spec, n, d, fc, sc):
         return "read-status-wrong", "read raised / did not raise as the statement requires"
     if kind in (2, 6):
         gk = got[2::2]
-        if gk and gk[0] > a and gk[0] in spec and (len(gk) < 2 or gk[0] > gk[1]):
+        b = q[2] if kind == 2 else a
+        if gk and gk[0] > a and gk[0] in spec and (gk[0] > b or (len(gk) >= 2 and gk[0] > gk[1])):
             return "ffill-returns-last-of-file", ("forward-fill read returns the last sample of the file although it "
                                                    "is later than the start of the range")
         return "ffill-wrong", "forward-fill read is not (latest sample at or before start) + samples in (start, end]"
@@ -373,6 +389,8 @@ def run_channel(res, n, d, fc, sc, calls, nq, stats, label):
                 refused_tags.add(t)
         expv.update(done)
         res.case(("write", n, d, fc, sc, tuple(c["samples"]), c["form"]), nontrivial=True)
+        if any(k * d >= 2 ** 64 for k in c["samples"]):
+            res.count("write:k*d>=2^64")
         res.count("write:%s:%s" % (c["form"], "duplicate-inside" if not ok_spec else
                                    ("straddles-files" if len({spec_path(n, d, fc, sc, k) for k in c["samples"]}) > 1
                                     else "one-file")))
@@ -393,6 +411,12 @@ def run_channel(res, n, d, fc, sc, calls, nq, stats, label):
                       dict(cfgi, query=["tree", bad[:5]]), {k: exp_where.get(k) for k in bad[:5]},
                       {k: where.get(k) for k in bad[:5]})
     rd = digital_rf.DigitalMetadataReader(top)
+    lacks_opt = {k for k, t in spec.items() if "opt" not in expv[t]}
+    # every file older than the cadence and writable: only 'the file opens' keeps the reader from deleting it
+    import time
+    old_t = time.time() - 2 * fc - 100
+    for f in files:
+        os.utime(os.path.join(top, f), (old_t, old_t))
     qs = gen_queries(rng, n, d, fc, spec, nq)
     # ---- model, all variants
     enc_calls = [len(calls)]
@@ -431,7 +455,7 @@ def run_channel(res, n, d, fc, sc, calls, nq, stats, label):
     for qi, q in enumerate(qs):
         problems = []
         got = impl_answer(rd, q, expv, problems)
-        exp = spec_answer(spec, q)
+        exp = spec_answer(spec, q, lacks_opt, lambda k: spec_path(n, d, fc, sc, k))
         inp = dict(cfgi, query=[q[0], q[1], q[2], q[3]])
         kind = q[0]
         res.case(("q", n, d, fc, sc, label, q[0], q[1], q[2], repr(q[3]), len(calls)), nontrivial=True)
@@ -440,6 +464,12 @@ def run_channel(res, n, d, fc, sc, calls, nq, stats, label):
                                    "" if q[3] is None else (":column" if isinstance(q[3], str) else ":columns")))
         if kind in (1, 2) and q[1] not in spec and any(q[1] < k for k in spec) and any(k < q[1] for k in spec):
             res.count("query:start-between-samples")
+        if exp == [3, 0] or got == [3, 0]:
+            res.count("query:columns-naming-a-field-some-samples-lack")
+            if got != exp:
+                res.violation("missing-column-not-reported", "a read naming a field that a sample of the range lacks "
+                              "neither raised KeyError nor returned every sample", inp, exp, got)
+            continue                                  # field names are not in the model
         if got != exp:
             sig, title = classify(q, exp, got, spec, n, d, fc, sc)
             if got and got[0] == 0 and exp[0] == 0 and any(t in refused_tags for t in got[3::2]):
@@ -470,11 +500,24 @@ def run_channel(res, n, d, fc, sc, calls, nq, stats, label):
     return len(files), len(spec)
 
 
+def raise_stack_limit():
+    """the extracted model recurses over candidate-file lists (one element per cadence slot, 86400 per
+    day at 1 s cadence); child processes inherit the limit"""
+    import resource
+    soft, hard = resource.getrlimit(resource.RLIMIT_STACK)
+    try:
+        resource.setrlimit(resource.RLIMIT_STACK, (hard, hard))
+    except (ValueError, OSError):
+        pass
+
+
 def run(res):
     common.use_impl()
+    raise_stack_limit()
     rng = res.rng
     quick = res.tier == "quick"
-    res.rule = ("write histories on channels over rates {10^8/7,10^9/7,10^6/3,200/3,25e6/3,1,100} x file cadences "
+    res.rule = ("write histories on channels over rates {10^8/7,10^9/7,10^6/3,200/3,25e6/3,1,100,10^11/1001,"
+                "20000000123/1000,12345678901/10 (k*d >= 2^64)} x file cadences "
                 "{1,3,60,3600} x subdir cadences {3600,86400}: ascending indices at file boundaries "
                 "ceil(j*c*n/d)+{-1,0,1}, inside files, at decimal-length changes (9/10, 99/100, 10^m-1/10^m), cut "
                 "into single / dict-of-arrays / list-of-dicts calls (batches straddling files, duplicates, a batch "
@@ -491,7 +534,7 @@ def run(res):
     for rep in range(reps):
         for (n, d) in RATES:
             for fc in FCS:
-                sc = SCS[(ci + rep) % 2]
+                sc = SCS[(ci + rep) % 2] if fc > 1 else 3600   # keeps the candidate lists of a query short
                 ci += 1
                 for kind in (["day", kinds[1 + ci % 3]] if quick else kinds):
                     calls = gen_channel(rng, n, d, fc, sc, kind)
@@ -538,7 +581,8 @@ def run(res):
         res.disagree("extracted OCaml vs vm_compute", None, vm, ex)
     res.extra["traces_validated_against_impl"] = res.evaluations
     res.assumptions += [
-        "sample indices 0 <= k < 2^63 (np.uint64 / np.int64 conversions of indices are not modelled)",
+        "sample indices 0 <= k < 2^63 (np.uint64 / np.int64 conversions of indices are not modelled); no bound on k*d "
+        "(Python integers in the code, Z in the model; rates with k*d >= 2^64 are generated on every run)",
         "values are opaque in the model; h5py/numpy value conversion, column selection, read_flatdict and get_fields "
         "are checked against the documented rules on every generated case, not proved",
         "an HDF5 file is modelled as the set of its groups; files are created with their first group (no empty or "
@@ -575,8 +619,13 @@ def replay(res, rp):
     if q and isinstance(q[0], int):
         q = (q[0], q[1], q[2], q[3])
         problems = []
+        lacks_opt = {k for k, t in spec.items() if "opt" not in expv[t]}
+        import time
+        for root, _d, fs in os.walk(top):
+            for f in fs:
+                os.utime(os.path.join(root, f), (time.time() - 2 * fc - 100,) * 2)
         got = impl_answer(rd, q, expv, problems)
-        exp = spec_answer(spec, q)
+        exp = spec_answer(spec, q, lacks_opt, lambda k: spec_path(n, d, fc, sc, k))
         print(" query kind=%d a=%d b=%d columns=%r" % q)
         print("  required [status, count, (index, tag)...]:", exp)
         print("  observed                               :", got)
